@@ -196,6 +196,21 @@ impl QueryServerWriteTransaction<'_> {
                 e
             })?;
 
+        // A merge that produced new content stamps the attribute with OUR transaction change id
+        // (merge_state). That change id must become a persisted anchor of the RUV: after a restart
+        // entries only re-attach to change ids that are stored, so without the anchor the server
+        // forgets that the entry changed at that id and the merged content (e.g. a key or session
+        // revocation) is never supplied onward.
+        let txn_cid = self.get_cid().clone();
+        if all_updates_valid
+            .iter()
+            .any(|(e, _)| e.get_changestate().cid_iter().contains(&&txn_cid))
+        {
+            self.be_txn
+                .get_ruv_write()
+                .insert_change(&txn_cid, idlset::v2::IDLBitRange::default())?;
+        }
+
         Plugins::run_post_repl_incremental_conflict(
             self,
             all_updates_valid.as_slice(),
